@@ -259,7 +259,7 @@ class Check(core.PropertyCheck):
     def model_runs(self, ctx):
         rng = random.Random(ctx.seed + 46)
         rows, sess = self._rows("quick", rng)
-        small = ctx.model_check(self.MODEL, self.model_constants("quick", rows, sess), dump=True)
+        small = ctx.model_check(self.MODEL, self.model_constants("quick", rows, sess), dump=True, timeout=1200)
         if ctx.quick:
             return [small]
         rows2, sess2 = self._rows("thorough", rng)
@@ -304,7 +304,7 @@ class Check(core.PropertyCheck):
             yield core.Scenario({"mode": modes[i % 3], "seed": rng.randrange(1 << 30), "steps": steps, "pred": pred},
                                 predicted=core.predicted_events(b), source="model")
         if not ctx.quick:
-            sims, _r = ctx.simulate(self.MODEL, self._big, num=4000, depth=5)
+            sims, _r = ctx.simulate(self.MODEL, self._big, num=4000, depth=5, timeout=1800)
             for i, b in enumerate(sims):
                 steps, pred = self._steps(b, rng)
                 yield core.Scenario({"mode": modes[i % 3], "seed": rng.randrange(1 << 30), "steps": steps, "pred": pred},
